@@ -83,7 +83,11 @@ func init() {
 			st, _ := b.settings(env, nil)
 			for i := 0; i < perDoc && events < a.n; i++ {
 				var e *Expr
-				switch k := rng.Intn(10); {
+				k := rng.Intn(10)
+				if a.fam == "values" {
+					k = 6 + rng.Intn(4)
+				}
+				switch {
 				case k < 6 || a.fam == "paths" || a.fam == "preds":
 					e = g.NodeSet(2, true)
 				case k < 7:
